@@ -22,6 +22,9 @@
   (and (<= (slen p) (slen s)) (= (str_sub s 0 (slen p)) p)))
 (define-fun has_suffix ((s Str) (p Str)) Bool
   (and (<= (slen p) (slen s)) (= (str_sub s (- (slen s) (slen p)) (slen s)) p)))
+; the prefix test as a function symbol (same meaning as has_prefix), so that lemmas about prefixes have a trigger
+(declare-fun pfx (Str Str) Bool)
+(assert (forall ((s Str) (p Str)) (! (= (pfx s p) (has_prefix s p)) :pattern ((pfx s p)))))
 ; unsafe.StringData / unsafe.String: the bytes behind a data pointer
 (declare-fun str_data (Str) Int)
 (declare-fun str_of (Int Int) Str)
@@ -32,6 +35,9 @@
 (assert (forall ((s Str) (c Int)) (! (=> (>= (slen s) 0) (and (<= (- 1) (str_last s c)) (< (str_last s c) (slen s))
     (=> (>= (str_last s c) 0) (= (select (sarr s) (str_last s c)) c)))) :pattern ((str_last s c)))))
 (assert (forall ((s Str) (c Int) (k Int)) (! (=> (and (>= (slen s) 0) (< (str_last s c) k) (< k (slen s))) (not (= (select (sarr s) k) c))) :pattern ((str_last s c) (select (sarr s) k)))))
+; strings.Contains (abstract; for a one-byte needle: the byte occurs)
+(declare-fun str_contains (Str Str) Bool)
+(assert (forall ((s Str) (p Str)) (! (=> (and (>= (slen s) 0) (= (slen p) 1)) (= (str_contains s p) (>= (str_last s (select (sarr p) 0)) 0))) :pattern ((str_contains s p)))))
 ; strings.Split with a one-byte separator: the number of pieces and the pieces themselves (abstract)
 (declare-fun split_count (Str Int) Int)
 (declare-fun split_piece (Str Int Int) Str)
